@@ -260,7 +260,15 @@ fn setup_files(dir: &Scratch, files: &[(String, String)]) -> Vec<PathBuf> {
 /// config generator for both sides: no features whose state is retained across a reload by design
 /// (dynamic macros, clipboard) and none that need external files
 fn gen_cfg(r: &mut Rng, req_action: Option<&str>) -> (String, CfgSpec) {
-    let feats = feat::ALL_RUNTIME & !feat::DELAY & !feat::DYNMACRO & !feat::ZIPPY;
+    let (t, s, _) = gen_cfg_files(r, req_action, "x");
+    (t, s)
+}
+
+/// Like `gen_cfg`, with zippychord allowed: the dictionary file gets a name unique to `tag` so that
+/// several configurations can live in one directory. Returns (text, spec, auxiliary files).
+fn gen_cfg_files(r: &mut Rng, req_action: Option<&str>, tag: &str) -> (String, CfgSpec, Vec<(String, String)>) {
+    let zippy = r.chance(300);
+    let feats = feat::ALL_RUNTIME & !feat::DELAY & !feat::DYNMACRO & if zippy { !0 } else { !feat::ZIPPY };
     let o = GenOpts { feats, max_keys: 5, max_layers: 3, max_depth: 2, hostile: false };
     let mut spec = gen_general(r, &o);
     if let Some(act) = req_action {
@@ -272,7 +280,14 @@ fn gen_cfg(r: &mut Rng, req_action: Option<&str>) -> (String, CfgSpec) {
             }
         }
     }
-    (spec_text(&spec), spec)
+    let mut text = spec_text(&spec);
+    let mut aux = vec![];
+    for (n, c) in &spec.files {
+        let n2 = format!("{}_{tag}.txt", n.trim_end_matches(".txt"));
+        text = text.replace(n.as_str(), &n2);
+        aux.push((n2, c.clone()));
+    }
+    (text, spec, aux)
 }
 
 impl Prop for C15 {
@@ -298,7 +313,7 @@ impl Prop for C15 {
             2 => "lrld-prev".to_string(),
             _ => format!("(lrld-num {})", r.range(1, nfiles as u64)),
         };
-        let (old_txt, old_spec) = gen_cfg(&mut r, Some(&req));
+        let (old_txt, old_spec, old_aux) = gen_cfg_files(&mut r, Some(&req), "old");
         // target index after the request(s)
         let twice = r.chance(200);
         let mut idx = 0usize;
@@ -318,12 +333,13 @@ impl Prop for C15 {
         let mut files: Vec<(String, String)> = vec![("cfg0.kbd".into(), old_txt.clone())];
         for i in 1..nfiles {
             // with back-to-back requests the file reloaded by the first one must understand the second
-            let (t, _) = gen_cfg(&mut r, if twice { Some(&req) } else { None });
+            let (t, _, aux) = gen_cfg_files(&mut r, if twice { Some(&req) } else { None }, &format!("f{i}"));
             files.push((format!("cfg{i}.kbd"), t));
+            files.extend(aux);
         }
         // new content of the target
         let new_has_lrld = r.chance(400);
-        let (new_txt, new_spec) = gen_cfg(&mut r, if twice { Some(&req) } else if new_has_lrld { Some("lrld") } else { None });
+        let (new_txt, new_spec, new_aux) = gen_cfg_files(&mut r, if twice { Some(&req) } else if new_has_lrld { Some("lrld") } else { None }, "new");
         let fault = match r.pick_w(&[50, 8, 8, 8, 6, 6, 6, 8]) {
             0 => "valid",
             1 => "unbalanced",
@@ -334,6 +350,8 @@ impl Prop for C15 {
             6 => "directory",
             _ => "not-utf8",
         };
+        files.extend(old_aux);
+        files.extend(new_aux);
         case.cfg = old_txt.clone();
         case.files = files;
         case.set("nfiles", nfiles);
